@@ -41,40 +41,78 @@ fn build_xorb(x: usize, lens: &[usize]) -> Xorb {
     Xorb { hash: MerkleHash::from(h), lens: lens.to_vec(), blob, bounds }
 }
 
+// a minimal HTTP/1.1 blob store: one thread per connection, keep-alive, GET with a Range header
 fn serve(xorbs: Arc<Vec<Xorb>>) -> (String, std::sync::mpsc::Receiver<String>, Arc<std::sync::atomic::AtomicBool>) {
-    let server = tiny_http::Server::http("127.0.0.1:0").unwrap();
-    let addr = format!("http://{}", server.server_addr().to_ip().unwrap());
+    use std::io::{BufRead, BufReader, Write};
+    let listener = std::net::TcpListener::bind("127.0.0.1:0").unwrap();
+    let addr = format!("http://{}", listener.local_addr().unwrap());
     let (tx, rx) = std::sync::mpsc::channel();
     let stop = Arc::new(std::sync::atomic::AtomicBool::new(false));
     let stop2 = stop.clone();
+    listener.set_nonblocking(true).unwrap();
     std::thread::spawn(move || loop {
         if stop2.load(std::sync::atomic::Ordering::SeqCst) {
             break;
         }
-        let Ok(Some(req)) = server.recv_timeout(std::time::Duration::from_millis(50)) else { continue };
-        // /x/<idx>/<fs>-<fe>
-        let parts: Vec<&str> = req.url().trim_start_matches('/').split('/').collect();
-        let x: usize = parts.get(1).and_then(|s| s.parse().ok()).unwrap_or(usize::MAX);
-        let range = req.headers().iter().find(|h| h.field.equiv("Range")).map(|h| h.value.as_str().to_string()).unwrap_or_default();
-        let _ = tx.send(format!("{} {}", req.url(), range));
-        let body = (|| {
-            let xb = xorbs.get(x)?;
-            let r = range.strip_prefix("bytes=")?;
-            let (a, b) = r.split_once('-')?;
-            let (a, b): (usize, usize) = (a.parse().ok()?, b.parse().ok()?);
-            if a > b || b >= xb.blob.len() {
-                return None;
+        let stream = match listener.accept() {
+            Ok((s, _)) => s,
+            Err(_) => {
+                std::thread::sleep(std::time::Duration::from_millis(2));
+                continue;
+            },
+        };
+        let _ = stream.set_nonblocking(false);
+        let _ = stream.set_nodelay(true);
+        let (xorbs, tx) = (xorbs.clone(), tx.clone());
+        std::thread::spawn(move || {
+            let mut reader = BufReader::new(stream.try_clone().unwrap());
+            let mut stream = stream;
+            loop {
+                let mut line = String::new();
+                if reader.read_line(&mut line).unwrap_or(0) == 0 {
+                    return;
+                }
+                let url = line.split(' ').nth(1).unwrap_or("").to_string();
+                let mut range = String::new();
+                loop {
+                    let mut h = String::new();
+                    if reader.read_line(&mut h).unwrap_or(0) == 0 {
+                        return;
+                    }
+                    let h = h.trim_end();
+                    if h.is_empty() {
+                        break;
+                    }
+                    if let Some((k, v)) = h.split_once(':') {
+                        if k.eq_ignore_ascii_case("range") {
+                            range = v.trim().to_string();
+                        }
+                    }
+                }
+                let _ = tx.send(format!("{} {}", url, range));
+                // /x/<idx>/<fs>-<fe>
+                let parts: Vec<&str> = url.trim_start_matches('/').split('/').collect();
+                let x: usize = parts.get(1).and_then(|s| s.parse().ok()).unwrap_or(usize::MAX);
+                let body = (|| {
+                    let xb = xorbs.get(x)?;
+                    let r = range.strip_prefix("bytes=")?;
+                    let (a, b) = r.split_once('-')?;
+                    let (a, b): (usize, usize) = (a.parse().ok()?, b.parse().ok()?);
+                    if a > b || b >= xb.blob.len() {
+                        return None;
+                    }
+                    Some(xb.blob[a..=b].to_vec())
+                })();
+                let (status, body) = match body {
+                    Some(b) => ("206 Partial Content", b),
+                    None => ("416 Range Not Satisfiable", b"bad".to_vec()),
+                };
+                let head = format!("HTTP/1.1 {}\r\nContent-Length: {}\r\nContent-Type: application/octet-stream\r\nConnection: keep-alive\r\n\r\n", status, body.len());
+                if stream.write_all(head.as_bytes()).is_err() || stream.write_all(&body).is_err() || stream.flush().is_err() {
+                    return;
+                }
             }
-            Some(xb.blob[a..=b].to_vec())
-        })();
-        match body {
-            Some(b) => {
-                let _ = req.respond(tiny_http::Response::from_data(b).with_status_code(206));
-            },
-            None => {
-                let _ = req.respond(tiny_http::Response::from_string("bad").with_status_code(416));
-            },
-        }
+        });
     });
     (addr, rx, stop)
 }
@@ -158,6 +196,9 @@ pub fn run(toks: &[&str]) -> Lines {
             let path = tmp.path().join(format!("out{}_{}", qn, round));
             let provider = OutputProvider::File(FileProvider::new(path.clone()));
             while reqlog.try_recv().is_ok() {}
+            if std::env::var("XV_RECON_DEBUG").is_ok() {
+                eprintln!("query {} round {} ({} writer, range {:?}, cache {})", qn, round, op[1], range, use_cache);
+            }
             let (c2, t2, f2) = (client.clone(), mk_terms(&sel), fi.clone());
             let br = range.map(|(s, e)| FileRange { start: s, end: e });
             let res = tp
